@@ -128,6 +128,8 @@ def _closure_has_logic(facts, cpath):
             n = strip_generics(t["func"].get("resolved") or t["func"]["path"])
             if n in facts.fns and facts.fns[n]["kind"] in ("Fn", "AssocFn"):
                 return True
+            if any(n.endswith(s_) for s_ in ("::box_assume_init_into_vec_unsafe", "Vec::push", "::from_elem", "::to_vec", "::into_vec", "::collect")):
+                return True           # the closure builds a collection (`|x| vec![x]`): its result has a shape the rules read
     return False
 
 
